@@ -574,7 +574,12 @@ func genInline(fset *token.FileSet, p *packages.Package, callerFile *ast.File, f
 	if len(call.Args) != sig.Params().Len() {
 		return "", nil, false // f(g()) multi-value forwarding
 	}
+	beta := map[string]string{} // parameter name -> statement text that replaces `param()`
 	for i, a := range call.Args {
+		if txt, ok := betaArg(fset, p, hi, call, i, a, srcText); ok {
+			beta[sig.Params().At(i).Name()] = txt
+			continue
+		}
 		fmt.Fprintf(&sb, "var __p%s_%d %s = %s\n", id, i, tstr(sig.Params().At(i).Type()), srcText(a.Pos(), a.End()))
 		binds = append(binds, bind{sig.Params().At(i).Name(), fmt.Sprintf("__p%s_%d", id, i)})
 	}
@@ -599,9 +604,12 @@ func genInline(fset *token.FileSet, p *packages.Package, callerFile *ast.File, f
 		}
 	}
 	// body with returns rewritten
-	bodyText, hasRet, ok := rewriteReturns(fset, hi, helperSrc, id, sig.Results().Len(), direct, resNames)
+	bodyText, hasRet, ok := rewriteReturns(fset, hi, helperSrc, id, sig.Results().Len(), direct, resNames, beta)
 	if !ok {
 		return "", nil, false
+	}
+	for name, txt := range beta {
+		bodyText = strings.ReplaceAll(bodyText, "__BETA_"+id+"_"+name+"()", txt)
 	}
 	if direct {
 		fmt.Fprintf(&sb, "%s\n", bodyText)
@@ -656,7 +664,7 @@ func innermostScope(info *types.Info, f *ast.File, pos token.Pos) *types.Scope {
 // rewriteReturns prints the helper's body (without the outer braces) with every
 // return of the helper itself replaced by an assignment to the result
 // variables and a break out of the wrapper loop.
-func rewriteReturns(fset *token.FileSet, hi *helperInfo, helperSrc []byte, id string, nres int, direct bool, resNames []string) (string, bool, bool) {
+func rewriteReturns(fset *token.FileSet, hi *helperInfo, helperSrc []byte, id string, nres int, direct bool, resNames []string, beta map[string]string) (string, bool, bool) {
 	// re-parse the helper's file so that the original syntax tree stays untouched
 	fs2 := token.NewFileSet()
 	f2, err := parser.ParseFile(fs2, "helper.go", helperSrc, 0)
@@ -716,6 +724,15 @@ func rewriteReturns(fset *token.FileSet, hi *helperInfo, helperSrc []byte, id st
 		switch x := s.(type) {
 		case *ast.ReturnStmt:
 			return mkBreak(x)
+		case *ast.ExprStmt:
+			// a call of a function-typed parameter that is bound to a literal at this call site (betaArg)
+			if c, ok := x.X.(*ast.CallExpr); ok && len(c.Args) == 0 {
+				if idn, ok := c.Fun.(*ast.Ident); ok {
+					if _, isBeta := beta[idn.Name]; isBeta {
+						return &ast.ExprStmt{X: &ast.CallExpr{Fun: ast.NewIdent("__BETA_" + id + "_" + idn.Name)}}
+					}
+				}
+			}
 		case *ast.BlockStmt:
 			x.List = rewrite(x.List)
 		case *ast.IfStmt:
@@ -745,6 +762,9 @@ func rewriteReturns(fset *token.FileSet, hi *helperInfo, helperSrc []byte, id st
 			list[i] = rewriteStmt(s)
 		}
 		return list
+	}
+	if direct && len(beta) > 0 {
+		fd.Body.List = rewriteDirectBeta(fd.Body.List, id, beta)
 	}
 	if !direct {
 		var top []ast.Stmt
@@ -793,4 +813,205 @@ func hasNamedResults(fd *ast.FuncDecl) bool {
 		}
 	}
 	return false
+}
+
+// rewriteDirectBeta replaces `param()` statements in a body whose returns stay as they are.
+func rewriteDirectBeta(list []ast.Stmt, id string, beta map[string]string) []ast.Stmt {
+	for i, st := range list {
+		ast.Inspect(st, func(n ast.Node) bool {
+			es, ok := n.(*ast.ExprStmt)
+			if !ok {
+				return true
+			}
+			if c, ok := es.X.(*ast.CallExpr); ok && len(c.Args) == 0 {
+				if idn, ok := c.Fun.(*ast.Ident); ok {
+					if _, isBeta := beta[idn.Name]; isBeta {
+						es.X = &ast.CallExpr{Fun: ast.NewIdent("__BETA_" + id + "_" + idn.Name)}
+					}
+				}
+			}
+			return true
+		})
+		list[i] = st
+	}
+	return list
+}
+
+// betaArg: argument i of the helper call is a niladic function literal (or a
+// method value / function name) bound to a parameter of type func() that the
+// helper only ever calls as a statement. Then `param()` can be replaced by the
+// literal's body (or by a direct call) instead of going through a function
+// value — the form a lock wrapper taking a closure (`withLock(func(){…})`) has
+// after inlining is then exactly the code the closure was extracted from.
+// Conditions: the literal has no return, defer, recover or labels of its own;
+// no name the literal refers to is declared anew inside the helper, except a
+// receiver/parameter that is bound to that very variable and never assigned.
+func betaArg(fset *token.FileSet, p *packages.Package, hi *helperInfo, call *ast.CallExpr, i int, arg ast.Expr, srcText func(a, b token.Pos) string) (string, bool) {
+	info := p.TypesInfo
+	hinfo := hi.pkg.TypesInfo
+	sig := hi.obj.Type().(*types.Signature)
+	par := sig.Params().At(i)
+	ps, ok := par.Type().Underlying().(*types.Signature)
+	if !ok || ps.Params().Len() != 0 || ps.Results().Len() != 0 || par.Name() == "" || par.Name() == "_" {
+		return "", false
+	}
+	// the parameter is only called, as a whole statement, and its name is declared once in the helper
+	callOnly := true
+	okStmt := map[*ast.Ident]bool{}
+	ast.Inspect(hi.decl.Body, func(n ast.Node) bool {
+		if es, ok := n.(*ast.ExprStmt); ok {
+			if c, ok := es.X.(*ast.CallExpr); ok && len(c.Args) == 0 {
+				if idn, ok := c.Fun.(*ast.Ident); ok {
+					okStmt[idn] = true
+				}
+			}
+		}
+		return true
+	})
+	helperDecl := map[string]types.Object{}
+	if sig.Recv() != nil && sig.Recv().Name() != "" {
+		helperDecl[sig.Recv().Name()] = sig.Recv()
+	}
+	for k := 0; k < sig.Params().Len(); k++ {
+		helperDecl[sig.Params().At(k).Name()] = sig.Params().At(k)
+	}
+	for k := 0; k < sig.Results().Len(); k++ {
+		if n := sig.Results().At(k).Name(); n != "" {
+			helperDecl[n] = sig.Results().At(k)
+		}
+	}
+	assigned := map[types.Object]bool{}
+	ast.Inspect(hi.decl.Body, func(n ast.Node) bool {
+		switch x := n.(type) {
+		case *ast.Ident:
+			if obj := hinfo.Defs[x]; obj != nil {
+				if x.Name == par.Name() {
+					callOnly = false // redeclared
+				}
+				helperDecl[x.Name] = obj
+			}
+			if hinfo.Uses[x] == types.Object(par) && !okStmt[x] {
+				callOnly = false
+			}
+		case *ast.AssignStmt:
+			for _, l := range x.Lhs {
+				if idn, ok := l.(*ast.Ident); ok {
+					if o := hinfo.Uses[idn]; o != nil {
+						assigned[o] = true
+					}
+				}
+			}
+		case *ast.IncDecStmt:
+			if idn, ok := x.X.(*ast.Ident); ok {
+				if o := hinfo.Uses[idn]; o != nil {
+					assigned[o] = true
+				}
+			}
+		case *ast.UnaryExpr:
+			if idn, ok := x.X.(*ast.Ident); ok && x.Op == token.AND {
+				if o := hinfo.Uses[idn]; o != nil {
+					assigned[o] = true
+				}
+			}
+		}
+		return true
+	})
+	if !callOnly {
+		return "", false
+	}
+	// does a name used by the argument collide with a declaration of the helper?
+	actualOf := func(obj types.Object) ast.Expr {
+		if sig.Recv() != nil && obj == types.Object(sig.Recv()) {
+			if sel, ok := call.Fun.(*ast.SelectorExpr); ok {
+				return sel.X
+			}
+		}
+		for k := 0; k < sig.Params().Len(); k++ {
+			if obj == types.Object(sig.Params().At(k)) && k < len(call.Args) {
+				return call.Args[k]
+			}
+		}
+		return nil
+	}
+	nameOK := func(idn *ast.Ident) bool {
+		used := info.Uses[idn]
+		if used == nil {
+			return true
+		}
+		hd, clash := helperDecl[idn.Name]
+		if !clash {
+			return true
+		}
+		if a := actualOf(hd); a != nil && !assigned[hd] {
+			if aid, ok := ast.Unparen(a).(*ast.Ident); ok && info.Uses[aid] == used {
+				// the helper's name denotes the very same variable — unless its type differs (implicit & or *)
+				return types.Identical(hd.Type(), used.Type())
+			}
+		}
+		return false
+	}
+	switch a := ast.Unparen(arg).(type) {
+	case *ast.FuncLit:
+		if a.Type.Params != nil && len(a.Type.Params.List) > 0 || a.Type.Results != nil && len(a.Type.Results.List) > 0 {
+			return "", false
+		}
+		ok := true
+		var visit func(n ast.Node, nested bool)
+		visit = func(n ast.Node, nested bool) {
+			ast.Inspect(n, func(m ast.Node) bool {
+				if !ok {
+					return false
+				}
+				switch x := m.(type) {
+				case *ast.FuncLit:
+					if m != ast.Node(a) {
+						visit(x.Body, true)
+						return false
+					}
+				case *ast.ReturnStmt, *ast.DeferStmt, *ast.LabeledStmt:
+					if !nested {
+						ok = false
+					}
+				case *ast.BranchStmt:
+					if !nested && (x.Label != nil || x.Tok == token.GOTO) {
+						ok = false
+					}
+				case *ast.CallExpr:
+					if idn, isID := x.Fun.(*ast.Ident); isID && idn.Name == "recover" {
+						ok = false
+					}
+				case *ast.Ident:
+					// free names only: objects declared outside the literal
+					if obj := info.Uses[x]; obj != nil && !(obj.Pos() >= a.Pos() && obj.Pos() < a.End()) {
+						if !nameOK(x) {
+							ok = false
+						}
+					}
+				}
+				return true
+			})
+		}
+		visit(a.Body, false)
+		if !ok {
+			return "", false
+		}
+		return "{\n" + srcText(a.Body.Lbrace+1, a.Body.Rbrace) + "\n}", true
+	case *ast.SelectorExpr:
+		x, isID := ast.Unparen(a.X).(*ast.Ident)
+		if !isID || !nameOK(x) {
+			return "", false
+		}
+		if sel := info.Selections[a]; sel != nil && sel.Kind() == types.MethodVal {
+			if _, isVar := info.Uses[x].(*types.Var); isVar {
+				return srcText(a.Pos(), a.End()) + "()", true
+			}
+		}
+	case *ast.Ident:
+		if fn, ok := info.Uses[a].(*types.Func); ok && fn.Pkg() == p.Types && fn.Parent() == p.Types.Scope() {
+			if _, clash := helperDecl[a.Name]; !clash {
+				return a.Name + "()", true
+			}
+		}
+	}
+	return "", false
 }
